@@ -22,7 +22,7 @@ func TestMain(m *testing.M) { hx.Main(m) }
 
 var rec = hx.NewRecorder("C06",
 	"a pool of 1-4 documents (some committed up front), an optional secondary index (plain on age/tag or unique on tag), "+
-		"2-3 explicit transactions from db.NewTxn (occasionally read-only) with 1-6 operations each {create, update, delete, "+
+		"2-3 explicit transactions from db.NewTxn or db.NewConcurrentTxn (occasionally read-only) with 1-6 operations each {create, update, delete, "+
 		"read by id, list with filter, count, list indexes, rarely create/drop index} through three routes (txn.ExecRequest, "+
 		"db.ExecRequest with the transaction in the context, collection API with the transaction in the context), a terminal "+
 		"commit or discard, plus a no-transaction actor; one global interleaving drawn by rapid and executed on one goroutine. "+
@@ -55,6 +55,7 @@ type Step struct {
 	V int    `json:"v,omitempty"` // new age / tag pool index / filter operand
 	R int    `json:"r,omitempty"` // route: 0 txn.ExecRequest, 1 db.ExecRequest(ctx with txn), 2 collection API (ctx with txn)
 	U bool   `json:"u,omitempty"` // begin: read-only; mkindex: unique; list: showDeleted
+	C bool   `json:"c,omitempty"` // begin: db.NewConcurrentTxn instead of db.NewTxn (still used from one goroutine)
 }
 
 // Case is the whole input.
@@ -141,7 +142,7 @@ func drawOp(t *rapid.T, actor, ndocs int, label string) Step {
 func drawCase(t *rapid.T) Case {
 	var c Case
 	c.Avoid = rapid.Bool().Draw(t, "avoid")
-	nd := rapid.IntRange(1, 4).Draw(t, "ndocs")
+	nd := rapid.SampledFrom([]int{1, 2, 3, 3, 4, 4}).Draw(t, "ndocs")
 	for k := 0; k < nd; k++ {
 		c.Docs = append(c.Docs, DocInit{
 			Age: rapid.IntRange(0, 5).Draw(t, "age"),
@@ -158,7 +159,8 @@ func drawCase(t *rapid.T) Case {
 	}
 	for a := 1; a <= nt; a++ {
 		ro := rapid.IntRange(0, 11).Draw(t, "readonly") == 0
-		queues[a] = append(queues[a], Step{A: a, K: "begin", U: ro})
+		conc := rapid.IntRange(0, 4).Draw(t, "concurrentTxn") == 0
+		queues[a] = append(queues[a], Step{A: a, K: "begin", U: ro, C: conc})
 		n := rapid.IntRange(1, 6).Draw(t, "nops")
 		for i := 0; i < n; i++ {
 			queues[a] = append(queues[a], drawOp(t, a, nd, fmt.Sprintf("a%d.", a)))
